@@ -79,6 +79,46 @@ def hx(s):
     return b.hex() if b else "-"
 
 
+POPS = {"In": "PIn", "NotIn": "PNotIn", "Eq": "PEq", "DEq": "PDEq", "Ne": "PNe", "Exists": "PExists", "DoesNotExist": "PDNE", "Gt": "PGt", "Lt": "PLt"}
+
+
+def xcheck_lbl(res, pairs):
+    """extraction cross-check for Lbl.v: Coq itself evaluates [parse] on a sample of the texts (vm_compute) and the results are
+    compared, inside Coq, with what the extracted model printed through the OCaml driver"""
+    import os
+    import re
+    import xcheck
+    body = ["From NIPAM Require Import Sel Lbl.", "From Coq Require Import List NArith.", "Import ListNotations.", "Open Scope N_scope."]
+    for i, (op, ob) in enumerate(pairs):
+        text = xcheck.unhex(op.split()[1])
+        if ob == "parse fail":
+            exp = "None"
+        else:
+            rs = ob.split()[2]
+            items = []
+            for r in ([] if rs == "-" else rs.split(";")):
+                k, o, vs = r.split(":")
+                vals = [] if vs == "" else vs.split("+")
+                items.append("mkPReq %s %s [%s]" % (xcheck.gstr(xcheck.unhex(k)), POPS[o], "; ".join(xcheck.gstr(xcheck.unhex(v)) for v in vals)))
+            exp = "Some [" + "; ".join(items) + "]"
+        body.append("Example xl_%d : parse %s = %s.\nProof. vm_compute. reflexivity. Qed." % (i, xcheck.gstr(text), exp))
+    gen = os.path.join(vlib.COQ, "gen")
+    os.makedirs(gen, exist_ok=True)
+    path = os.path.join(gen, "xcheck_lbl_%d.v" % os.getpid())
+    open(path, "w").write("\n".join(body) + "\n")
+    rc, out, dt = vlib.sh("timeout 900 coqc -Q .. NIPAM %s 2>&1" % os.path.basename(path), cwd=gen, timeout=1000, check=False)
+    for ext in (".v", ".vo", ".vok", ".vos", ".glob"):
+        try:
+            os.remove(path[:-2] + ext)
+        except OSError:
+            pass
+    ok = rc == 0
+    res.obligation("extraction cross-check: Coq's own evaluation (vm_compute) of Lbl.parse on %d texts = output of the extracted model through the OCaml driver" % len(pairs), ok)
+    if not ok:
+        res.violation({"property": "C17", "kind": "correspondence-break",
+                       "theorem_or_correspondence": "extraction cross-check of Lbl.parse: Coq vm_compute vs extracted model + OCaml driver", "detail": out[-2500:]}, nofail=True)
+
+
 def run(res, tier, seed):
     vlib.standard_proof_step(res, "C17")
     if not vlib.build_executors(res, "C17"):
@@ -105,6 +145,10 @@ def run(res, tier, seed):
                    not [m for m in mism if m["op"].split()[0] in ("selkey", "match")])
     res.obligation("correspondence: labels.Parse = the model's lexer and parser (Lbl.parse) on %d texts (requirements, operators as parsed, value sets, errors), "
                    "and matchCIDRLabels on arbitrary keys = match_key" % len(texts), not [m for m in mism if m["op"].split()[0] in ("parse", "mkey")])
+    model_obs = [l for b in vlib.split_cases(vlib.read_lines(st["casefile"] + ".model")) for l in b[1:]]
+    all_ops = [l for _, ls in cases for l in ls]
+    ppairs = [(op, ob) for op, ob in zip(all_ops, model_obs) if op.startswith("parse ")]
+    xcheck_lbl(res, rng.sample(ppairs, min(len(ppairs), 150 if tier == "quick" else 1500)))
     # same key => same meaning (monitor on the implementation's answers)
     flat_ops = [l for _, ls in cases for l in ls]
     flat_obs = [l for b in impl for l in b[1:]]
